@@ -287,6 +287,18 @@ func sortLines(ls [][]string) [][]string {
 	return ls
 }
 
+// barrierDeadline bounds the wait for a quiescence barrier (sentinel result / exact row accounting).
+// Reaching it is reported as a failure observable, never as a pass. Once a barrier has failed in this
+// process the implementation is broken anyway, and the remaining cases only wait briefly.
+var barrierFailed bool
+
+func barrierDeadline() time.Duration {
+	if barrierFailed {
+		return 200 * time.Millisecond
+	}
+	return 2 * time.Second
+}
+
 func hasSentinel(r map[string]interface{}) bool {
 	ids, _ := r["ids"].([]interface{})
 	for _, id := range ids {
@@ -354,7 +366,7 @@ func c04SQL(mode string, arity, n int, alias bool, rows [][]string) [][]string {
 		s.Emit(row)
 	}
 	var out [][]string
-	deadline := time.After(10 * time.Second)
+	deadline := time.After(barrierDeadline())
 	for {
 		select {
 		case b := <-ch:
@@ -371,6 +383,7 @@ func c04SQL(mode string, arity, n int, alias bool, rows [][]string) [][]string {
 				return sortLines(out)
 			}
 		case <-deadline:
+			barrierFailed = true
 			return append(sortLines(out), []string{"sentinel-lost"})
 		}
 	}
